@@ -283,6 +283,9 @@ class ShapelyBoundary(BoundaryDomain):
     def _translate_point_to_bondary(
         self, index, line_points, corners, current_length, corner_index, side_length
     ):
+        if side_length == 0:
+            # two identical consecutive vertices: the side is a single point
+            return corners[corner_index]
         coord = line_points[index] - current_length
         new_point = corners[corner_index] + coord / side_length * (
             corners[corner_index + 1] - corners[corner_index]
